@@ -4,6 +4,7 @@ package main
 import (
 	"fmt"
 	"os"
+	"time"
 
 	"verif/ev"
 	sn "verif/simnode"
@@ -11,22 +12,30 @@ import (
 
 func main() {
 	r := ev.Start("C14", "exploration",
-		"certificates = sequences of REAL ECDSA signature entries (valid member, repeated member with same / different signature bytes, non-member, member over another id, "+
-			"damaged signature, address/key mismatch) over a certified id, for validator sets of 1..10 of 10 fixed keys; EXHAUSTIVE multisets of <= n+2 entries for n=1..4, "+
-			"systematic threshold-1 / threshold certificates padded with repeats and non-members plus seeded random mixtures for n=5..10; each is given to the real "+
-			"DefaultSaftyRules.CheckProposal and to real tdpos / xpoa instances through CheckMinerMatch over a stub ledger whose previous block prescribes another validator set "+
-			"than the current one; the answer is compared with a vote-counting model written from the statement (distinct valid members vs n-floor((n-1)/3)-1). "+
-			"A case is distinct by (entry point, n, collector role, multiset of entry kinds per member, signature-bytes policy); non-trivial = has an entry that must not count "+
-			"or lies within 1 of the threshold. CalVotesThreshold is tabulated for n=0..40; CheckVote gets every entry kind as a single vote")
+		"certificates = sequences of REAL ECDSA signature entries (valid member, repeated member with same / different signature bytes, non-member, member over another id "+
+			"or over the carrying proposal's id, damaged signature, address/key mismatch) over a certified id, for validator sets of 1..10 out of 10 fixed keys (+10 fixed outsiders); "+
+			"EXHAUSTIVE multisets of <= n+2 entries for n=1..4 (thorough: 1..5) in 3 entry orders, systematic threshold-1 / threshold certificates padded with repeats and "+
+			"non-members plus seeded random mixtures for n=5..10. Each certificate is given (1) to the real DefaultSaftyRules.CheckProposal, (2) inside a block to real tdpos / xpoa "+
+			"instances (exported constructors) through CheckMinerMatch over a stub ledger whose certified block, current block and older blocks prescribe three different validator "+
+			"sets (the one in force holds at exactly one snapshot height); (3) vote-message streams (honest votes + one kind of non-honest message) are fed to a real Smr collector. "+
+			"Answers are compared with a vote-counting model written from the statement (distinct valid members vs n-floor((n-1)/3)-1). A case is distinct by (entry point, n, "+
+			"collector role, multiset of entry kinds per member, signature-bytes policy / set overlap / message sequence); non-trivial = contains an entry that must not count or lies "+
+			"within 1 of the threshold. CalVotesThreshold is tabulated for n=0..40 x inputs 0..n+3; CheckVote gets every entry kind as a vote")
 	sn.InitLogs()
 	m := NewMaterial()
 
-	canonicalProbes(r, m)
-	thresholdTable(r, m)
-	checkVotes(r, m)
-	exhaustiveSmall(r, m)
-	boundaryAndRandom(r, m)
-	bcsPart(r, m)
+	t0 := time.Now() // progress output only, never part of a verdict
+	step := func(name string, f func(*ev.Run, *Material)) {
+		f(r, m)
+		fmt.Fprintf(os.Stderr, "c14: %-18s done at %5.1fs\n", name, time.Since(t0).Seconds())
+	}
+	step("canonical probes", canonicalProbes)
+	step("threshold table", thresholdTable)
+	step("CheckVote", checkVotes)
+	step("exhaustive", exhaustiveSmall)
+	step("boundary+random", boundaryAndRandom)
+	step("tdpos/xpoa", bcsPart)
+	step("collector", collectorPart)
 
 	r.Exhaustive(false) // the n<=4 box is exhaustive (see counters exhaustive.*), n=5..10 is sampled
 	r.Extra("exhaustive_box", "all multisets of <= n+2 entries over {valid, non-member, wrong-id, damaged, mismatch} x members, n = 1..4")
@@ -47,8 +56,10 @@ func main() {
 	r.Floor("CheckVote.accepted", 10)
 	r.Floor("CheckVote.rejected", 50)
 	bcsFloors(r)
+	collectorFloors(r)
 	r.Assume("the 'collector' of a certificate is the signer of the proposal that carries it (block proposer in CheckMinerMatch); whether its own signature counts is not enforced: must-reject uses the count WITH it, must-accept the count WITHOUT it")
 	r.Assume("ECDSA / address derivation of the crypto client are trusted (validity of an entry is by construction: which key signed which id)")
+	r.Assume("collector part: the private smr handlers handleReceivedProposal / handleReceivedVoteMsg are called synchronously through verif-tagged wrappers (export_verif.go) instead of through the network goroutines; 'certified' is observed as Smr.GetHighQC() == voted proposal")
 	r.Assume("the stub ledger answers QueryBlock / QueryBlockByHeight / CreateSnapshot consistently; validator-set contract state is injected as snapshot content, not produced by contract calls")
 	fmt.Fprintln(os.Stderr, "c14: done")
 	sn.CleanupScratch()
